@@ -201,6 +201,9 @@ def run(ctx, res):
                                 g.loc(st["span"]))
     res.floor("POSITION-PAIRS", "position ends copied from other positions", n_pairs, 15)
 
+    # ---- NO-SRC-LAST-RESORT (shared with C29): go-to-definition reports byte columns only when the file cannot be read
+    from . import c29 as _c29
+    _c29.no_src_last_resort(ctx.P, res)
     # ---- UNIT-MIX over the whole crate (byte offsets vs character counts)
     from .. import units as U
     U.check(ctx.P, res, "UNIT-MIX", ("",), 70)
